@@ -17,11 +17,12 @@ import (
 //
 // (a) the C05(a) exploration of put histories with the radius oracle (c05.go);
 // (b) the full product of boundary (node id, radius, distance) triples through the
-//     in-range test; (c) the Store RPC over a store advertising each radius.
+//     in-range test; (c) the Store RPC over a store advertising each radius;
+// (d) concurrent puts with an observer (c06b.go).
 
 func init() {
 	register(&Prop{ID: "C06", Level: "model_checking", Run: runC06, Replay: replayC06,
-		Workers: func(e *Env) int { return len(c05Tasks(e.Thorough())) + 1 }, Procs: 1,
+		Workers: func(e *Env) int { return len(c05Tasks(e.Thorough())) + 1 + c06bTasks() }, Procs: 1,
 		Budget: func(t string) time.Duration {
 			if t == "thorough" {
 				return 30 * time.Minute
@@ -164,9 +165,17 @@ func runC06(r *mc.Report, e *Env) {
 	if e.Of <= 1 || e.Shard == nb {
 		c06Product(r)
 	}
+	for t := 0; t < c06bTasks(); t++ {
+		if e.Of <= 1 || e.Shard == nb+1+t {
+			runC06b(r, e, t)
+		}
+	}
 }
 
 func replayC06(r *mc.Report, e *Env, raw json.RawMessage) {
+	if replayC06b(r, raw) {
+		return
+	}
 	var h c05Case
 	if err := json.Unmarshal(raw, &h); err == nil && len(h.Hist) > 0 {
 		c05Run1(nil, r, h.Node, h.Hist)
